@@ -1,11 +1,3 @@
 INIT GInit
 NEXT GNext
-CONSTANTS
-  Profiles = {"P1"}
-  DomBytes = {}
-  DomLC = {}
-  DomCert = {}
-  DomSw = {}
-  DomInvalid = {}
-  MaxComps = 0
 CHECK_DEADLOCK FALSE
